@@ -353,6 +353,7 @@ pub fn log(s: String) { LOG.with(|l| l.borrow_mut().push(s)); }
 pub fn take() -> String { LOG.with(|l| std::mem::take(&mut *l.borrow_mut())).join(\";\") }
 #[derive(Debug, PartialEq)]
 pub struct R(pub u32);
+impl Copy for R {}
 impl Clone for R {
     fn clone(&self) -> Self { log(format!(\"clone {}\", self.0)); R(self.0 + 1000) }
     fn clone_from(&mut self, s: &Self) { log(format!(\"clone_from {} {}\", self.0, s.0)); self.0 = s.0 + 2000; }
@@ -434,34 +435,83 @@ def showFn (item : Item) (fieldFmt : String) : String :=
   let body := match item with
     | .enum_ e => if e.variants.isEmpty then "match *x {}" else "match x { " ++ " ".intercalate arms ++ " }"
     | _ => "match x { " ++ " ".intercalate arms ++ " }"
-  s!"pub fn show(x: &X) -> String \{ {body} }\n"
+  let gen := match item with
+    | .struct_ st => !st.generics.params.isEmpty
+    | .enum_ e => !e.generics.params.isEmpty
+    | _ => false
+  s!"pub fn show(x: &X{if gen then "<R>" else ""}) -> String \{ {body} }\n"
 
 def showVal {V} [ToString V] (item : Item) (v : Val V) : String :=
   let n := (shapeFields item v.variant).fields.length
   s!"v{v.variant}:[{",".intercalate ((List.range n).map fun i => toString (v.field i))}]"
 
-/-- a random Clone item over `R` fields -/
+/-- a random Clone item over `R` fields: alone or next to `Copy` (one list or split), with `bound(..)` arguments on
+fields and variants (they change the where-clause only: never the calls), concrete or generic over the field type -/
 def genCloneRunCase (seed idx : Nat) : Case := runGen seed idx do
   let isEnum ← chance 3 5
   let useDerive ← chance 1 3
-  let args : Args := { items := [{ trait_ := "Clone" }] }
-  let rF (n : Nat) (kind : FieldsKind) : Fields :=
-    { kind, fields := (List.range n).map fun i =>
-        { name := if kind == .named then some (["a", "b", "c", "d"].getD i "z") else none, ty := Ty.simple "R" } }
-  let attrs := if useDerive then [Attr.deriveEx args] else []
+  let generic ← chance 1 4
+  let withCopy ← pickW [(5, 0), (1, 1), (1, 2), (1, 3)]
+  let items : List DeriveItem := match withCopy with
+    | 1 => [{ trait_ := "Copy" }, { trait_ := "Clone" }]
+    | 2 | 3 => [{ trait_ := "Clone" }, { trait_ := "Copy" }]
+    | _ => [{ trait_ := "Clone" }]
+  let args : Args := { items := if withCopy == 3 then items.take 1 else items }
+  let extra : List Attr := if withCopy == 3 then [.deriveEx { items := items.drop 1 }] else []
+  let fty : Ty := if generic then tyT else Ty.simple "R"
+  let boundAttr : Gen (List Attr) := do
+    let rClone : BoundArg := .pred (.ty [] (Ty.simple "R") [.trait false [] (Ty.simple "Clone")])
+    -- over a generic field type a bound that stops resolution has to supply `T: Clone` itself
+    let b ← if generic then
+        pickW [(8, (none : Option (List BoundArg))), (1, some [.ty tyT]), (1, some [.dots]),
+               (1, some [.pred (.ty [] tyT [.trait false [] (Ty.simple "Clone")]), rClone]), (1, some [rClone, .dots])]
+      else
+        pickW [(8, (none : Option (List BoundArg))), (1, some []), (1, some [.dots]), (1, some [rClone])]
+    match b with
+    | none => pure []
+    | some b =>
+      if ← chance 1 2 then pure [.deriveEx { items := [{ trait_ := "Clone", args := some (some b, false) }] }]
+      else pure [.deriveEx { items := [{ trait_ := "Clone" }], bound := some b }]
+  let rF (n : Nat) (kind : FieldsKind) : Gen Fields := do
+    let fs ← (List.range n).mapM fun i => do
+      let attrs ← boundAttr
+      let ty ← if generic && (← chance 1 3) then pure (Ty.simple "R") else pure fty
+      pure ({ attrs, name := if kind == .named then some (["a", "b", "c", "d"].getD i "z") else none, ty } : Field)
+    pure { kind, fields := fs }
+  let generics : Generics := if generic then { params := [.ty "T" [] none] } else {}
+  let attrs := (if useDerive then [Attr.deriveEx args] else []) ++ extra
   let item ← (do
     if isEnum then
       let nv ← pickW [(1, 1), (3, 2), (3, 3), (2, 4)]
       let vs ← (List.range nv).mapM fun i => do
         let k ← pickW [(2, FieldsKind.unit), (3, .unnamed), (3, .named)]
         let n ← if k == .unit then pure 0 else pickW [(1, 0), (3, 1), (3, 2), (2, 3)]
-        pure ({ name := ["A", "B", "C", "D"].getD i "Z", fields := if k == .unit then { kind := .unit } else rF n k } : Variant)
-      pure (Item.enum_ { attrs, name := "X", variants := vs })
+        let vattrs ← boundAttr
+        let fields ← if k == .unit then pure { kind := .unit } else rF n k
+        pure ({ attrs := vattrs, name := ["A", "B", "C", "D"].getD i "Z", fields } : Variant)
+      pure (Item.enum_ { attrs, name := "X", generics, variants := vs })
     else
       let k ← pickW [(1, FieldsKind.unit), (3, .unnamed), (3, .named)]
       let n ← if k == .unit then pure 0 else pickW [(1, 0), (2, 1), (3, 2), (2, 3), (1, 4)]
-      pure (Item.struct_ { attrs, name := "X", fields := if k == .unit then { kind := .unit } else rF n k }))
-  pure { id := s!"cloneRun/{seed}/{idx}", tags := [s!"enum={isEnum}"], entry := if useDerive then .derive else .attr args, item }
+      let fields ← if k == .unit then pure { kind := .unit } else rF n k
+      pure (Item.struct_ { attrs, name := "X", generics, fields }))
+  -- a parameter no field mentions would be rejected by rustc (E0392): drop it
+  let usesT : Bool := match item with
+    | .struct_ st => st.fields.fields.any (·.ty.toks == tyT.toks)
+    | .enum_ e => e.variants.any fun v => v.fields.fields.any (·.ty.toks == tyT.toks)
+    | _ => false
+  let item := if generic && !usesT then
+      -- … together with the `bound(..)` arguments that mention it
+      let noB (fs : Fields) : Fields := { fs with fields := fs.fields.map fun f => { f with attrs := [] } }
+      (match item with
+       | .struct_ st => Item.struct_ { st with generics := {}, fields := noB st.fields }
+       | .enum_ e => Item.enum_ { e with generics := {}, variants := e.variants.map fun v => { v with attrs := [], fields := noB v.fields } }
+       | x => x)
+    else item
+  let generic := generic && usesT
+  pure { id := s!"cloneRun/{seed}/{idx}",
+         tags := [s!"enum={isEnum}", s!"copy={withCopy}", s!"generic={generic}"],
+         entry := if useDerive then .derive else .attr args, item }
 
 def genImplOf (c : Case) : Option GenImpl :=
   let core := match c.entry, c.item with
@@ -490,9 +540,12 @@ def cloneEvStr (dst src : Val Nat) : CloneEv → Option String
   | .cloneFrom i => some s!"clone_from {dst.field i} {src.field i}"
   | .cloneWhole => none
 
+def cloneImplOf (c : Case) : Option CloneImpl :=
+  (allGenImpls c).findSome? fun | .clone ci => some ci | _ => none
+
 def cloneRunProgram (c : Case) (modName : String) : String × List String :=
-  match genImplOf c with
-  | some (.clone ci) =>
+  match cloneImplOf c with
+  | some ci =>
     let nv := match c.item with | .enum_ e => e.variants.length | _ => 1
     -- two values per variant, all fields distinguishable
     let vals : List (Nat × List Nat) := (List.range nv).flatMap fun v =>
@@ -501,11 +554,11 @@ def cloneRunProgram (c : Case) (modName : String) : String × List String :=
     let toVal (p : Nat × List Nat) : Val Nat := { variant := p.1, field := fun i => p.2.getD i 0 }
     let ctor (p : Nat × List Nat) := ctorWith c.item p.1 (p.2.map fun x => s!"R({x})")
     let body :=
-      s!"pub mod {modName} \{ use super::*;\n#[derive(Debug, PartialEq)] {rustItem c}\n{showFn c.item "@.0"}pub fn run() \{\n" ++
+      s!"pub mod {modName} \{ use super::*;\n#[derive(Debug, PartialEq)] {rustItem c}\n{showFn c.item "@.0"}pub type XT = X{if c.tags.contains "generic=true" then "<R>" else ""};\npub fn run() \{\n" ++
       (String.join (vals.map fun p =>
-        s!" \{ let a = {ctor p}; take(); let z = a.clone(); let lg = take(); println!(\"{modName} clone \{} | \{} | src \{}\", show(&z), lg, show(&a)); }\n")) ++
+        s!" \{ let a: XT = {ctor p}; take(); let z = a.clone(); let lg = take(); println!(\"{modName} clone \{} | \{} | src \{}\", show(&z), lg, show(&a)); }\n")) ++
       (String.join (vals.flatMap fun p => vals.map fun q =>
-        s!" \{ let mut a = {ctor p}; let b = {ctor q}; take(); a.clone_from(&b); let lg = take(); println!(\"{modName} clone_from \{} | \{} | src \{}\", show(&a), lg, show(&b)); }\n")) ++
+        s!" \{ let mut a: XT = {ctor p}; let b: XT = {ctor q}; take(); a.clone_from(&b); let lg = take(); println!(\"{modName} clone_from \{} | \{} | src \{}\", show(&a), lg, show(&b)); }\n")) ++
       "}\n}\n"
     let exp :=
       (vals.map fun p =>
@@ -518,7 +571,7 @@ def cloneRunProgram (c : Case) (modName : String) : String × List String :=
         let (z, tr) := evalCloneFrom ci rCloneSem a b
         s!"{modName} clone_from {showVal c.item z} | {";".intercalate (tr.filterMap (cloneEvStr a b))} | src {showVal c.item b}")
     (body, exp)
-  | _ => ("", [])
+  | none => ("", [])
 
 /-- a random operator item (struct over `M` fields) -/
 def genOpsRunCase (seed idx : Nat) : Case := runGen seed idx do
